@@ -38,6 +38,9 @@ func fixedSchema() *schemaDef {
 	for _, d := range s.types {
 		s.byName[d.name] = d
 	}
+	s.byName["User"].deprecateField("login")
+	s.byName["Node"].deprecateField("id")
+	s.byName["Color"].deprecateValue("GREEN")
 	return s
 }
 
